@@ -1,5 +1,5 @@
 from .. import facts
-from ..rules import image, alloc
+from ..rules import image, alloc, glyph
 
 
 def run(ck):
@@ -15,3 +15,4 @@ def run(ck):
     image.r15_6_free_while_linked(ck, P)
     image.r_no_dangling_after_free(ck, P, 'C20-R7')
     alloc.r3_local_ownership(ck, P)       # C15-R3: what a function allocates for itself is released on every path (a leak is a lifetime violation too)
+    glyph.r2_counters_pair(ck, P)         # C17-R2: the table-clearing sweep visits every slot (a glyph left in an unvisited slot is never released)
